@@ -150,7 +150,7 @@ def make_file(rng: random.Random, cfg: dict | None = None) -> dict:
         rng.shuffle(sections)
     body = [cat["event"], ""]
     if cfg.get("cartesian"):
-        body.append(f"FastCoherentSum::UseCartesian {rng.choice([0, 1])}")
+        body.append(f"FastCoherentSum::UseCartesian {rng.choice([1, 1, 1, 1, 0])}")
         tags.add("cartesian_option")
     for sec in sections:
         if rng.random() < 0.3:
@@ -716,9 +716,17 @@ def gen_history(rng: random.Random, pool: list, cfg: dict | None = None) -> dict
             op["file"] = "model.opts"
     # faults: some of the earlier calls are killed part-way (a later call must not see what they left behind)
     p_int = cfg.get("p_interrupt", 0.2)
+    cart = [f["name"] for f in pool if "cartesian_option" in (f.get("tags") or [])]
     for i in range(len(ops) - 1):
         if rng.random() < p_int:
-            ops[i] = {"op": "interrupt", "inner": ops[i], "k": int(10 ** rng.uniform(0.0, 3.6))}
+            inner = dict(ops[i])
+            if cart and rng.random() < 0.5:
+                # a kill is most interesting inside the read that flips a class-wide switch (the coherent-sum option)
+                inner["content" if inner.get("content") else "file"] = rng.choice(cart)
+            # a read/convert runs through 14-22 thousand line events of the package (measured): half of the kill points are
+            # uniform over that range, half log-uniform so that the early phases (option handling, transformer) are hit too
+            k = rng.randint(1, 16000) if rng.random() < 0.5 else int(10 ** rng.uniform(0.0, 4.3))
+            ops[i] = {"op": "interrupt", "inner": inner, "k": k}
     # ... and sometimes the one-time load of the special-particle table meets a transient I/O error
     if rng.random() < cfg.get("p_table_fault", 0.15):
         ops.insert(rng.randrange(0, len(ops) - 1), {"op": "arm_table_fault"})
